@@ -37,6 +37,8 @@ def nontrivial(req, obs):
     if f[0] in ("stack", "stackn"):
         # at least one middleware and something other than "handler returned nothing, nothing observable happened"
         return f[1] != "-" and not (obs.startswith("ret/-/none ") and "calls=000/n " in obs and f[2] == "live/n/n/n")
+    if f[0] == "conc":
+        return f[1] != "-" and int(f[4]) >= 2     # a middleware and at least two goroutines
     if f[0] == "delay":
         return f[3].count("F") >= 2      # the recurrence is exercised
     return f[0] == "throttle" and int(f[1]) > 2
@@ -89,6 +91,11 @@ PROP = {
             "(recover() returns nil for panic(nil), as in programs whose go.mod says go < 1.21): every middleware x panic(nil) / other "
             "panics / errors / successes, every pair containing a Recoverer (and a quarter of the others) x 7 scripts around "
             "panic(nil), seeded triples; expectation unchanged (a nil panic is a panic: an error under Recoverer, retried by Retry). "
+            "conc: ONE wrapped handler value (built once, as Router.AddHandler does) called by 2..16 goroutines at the same time with "
+            "400..1600 (quick) / 2000..8000 (thorough) messages, message i scripted with one of 5 templates (outputs, error with "
+            "outputs, wrapped error, panic, nothing) and its output uuids / panic strings tagged with i: each single middleware and "
+            "30 (150) seeded stacks of 2-3, a third of them with the CircuitBreaker; observed per template the distinct per-call "
+            "observations with counts - every call must return its own handler's outputs and error. "
             "throttle: n calls by 1..16 concurrent callers through a fresh Throttle against the real clock, with messages whose context is live, "
             "already cancelled, or under a Timeout(period/8) outside the Throttle that expires during the wait; only the lower bound "
             "(n-2)·period ≤ elapsed (measured from before the ticker's creation) is judged. Non-trivial = a stack case with a middleware and an observable effect, a delay "
@@ -123,6 +130,10 @@ PROP = {
     "assumptions": [
         "handlers leave on the message the context they found (CtxNeutral); a handler that itself replaces the message context "
         "and does not put it back is outside compose_with_retry (Timeout still restores its own original)",
+        "the middlewares keep no state per wrapped handler (fact middlewares_with_state_outside_the_handler_literal = []): in the model "
+        "every call is a function of its own message, so concurrent calls cannot influence each other; the conc cases sample exactly "
+        "that on the real code (an interleaving-dependent check: a change that only misbehaves under a rare interleaving may need "
+        "several runs to show a failing input, the fact flags it at once)",
         "outputs are distinct non-nil messages built with NewMessage (non-nil Metadata) and different from the incoming message",
         "durations are non-negative; Multiplier >= 1 (num >= den > 0)",
         "'k-th consecutive failure' counts the failures of this message since its delay metadata was absent or unparseable; a "
@@ -142,7 +153,7 @@ PROP = {
                    "equals the run in which Retry ignores the context), because every middleware leaves the context as it found "
                    "it (Timeout restores it even on panic). DelayOnError is proved over exact integers for every rational "
                    "multiplier >= 1; the first-delay cap is open finding D17 (guarded theorem + witness). Five closure bodies are "
-                   "re-extracted from the source on every run and proved equal to the model; 46 structural facts pin the rest. "
+                   "re-extracted from the source on every run and proved equal to the model; 47 structural facts pin the rest. "
                    "The harness runs the real middlewares on ~58k (quick) / ~260k+ (thorough) cases and both diffs them against the model and "
                    "evaluates the statement clause by clause with an independently written monitor.",
     "level_text": "Theorems (kernel-checked, no sorry) over a hand-written executable model of the nine middlewares: transparency for "
@@ -159,7 +170,7 @@ PROP = {
                   "Model-validated only: real time (Timeout's deadline firing, Throttle's rate on the wall clock – one lower-bound "
                   "inequality), float64 rounding for multipliers that are not small dyadic rationals, gobreaker outside the closed "
                   "state, Retry's back-off (C12). Tie: extracted_{timeout,instantAck,throttle,delayMw,applyDelay}_eq_model re-proved "
-                  "against the bodies extracted on every run, 46 structural facts, differential harness + monitor.",
+                  "against the bodies extracted on every run, 47 structural facts, differential harness + monitor.",
     "technique": "Lean 4 theorems over a hand-written executable model + generated deep-embedded bodies with tie theorems + "
                  "structural facts + differential correspondence check (model diff and property monitor) against the Go code",
 }
